@@ -147,9 +147,11 @@ EvPopulate(e) ==
     /\ P("C09", "pool_prior_matches_model", e.logP_ok)
     /\ P("C09", "pool_likelihood_matches_model", e.logL_ok)
     /\ P("C09", "pool_size",
-            IF e.cls \in {"RejectionProposal"} THEN e.n <= e.N
+            IF e.cls \in {"RejectionProposal"} \/ e.accumulate THEN e.n <= e.N
             ELSE IF e.cls = "AnalyticProposal" THEN e.n = e.N
             ELSE e.n = e.N)
+    \* with accumulate_weights the population gives up after max_samples candidates (Pool.tla, mode accumulate)
+    /\ P("C09", "accumulated_pool_short_after_max_samples", e.accumulate => e.n = e.N)
     /\ P("C09", "pool_indices_each_once", e.perm)
     /\ P("C09", "pool_inside_latent_contour", e.in_contour)
     /\ Mark("populate") /\ UNCHANGED <<s, rank, ok, disk>>
